@@ -545,6 +545,98 @@ Definition rename_table (t name : Z) (m : meta) : res meta :=
   end.
 
 (* ---------------------------------------------------------------------------------------------- *)
+(* summary tables, at the level of references.  What summary.py decides from column names, types and formula
+   texts (which formula columns a summary table gets, which column a field is moved to) is supplied by the
+   caller; the model places the records and runs the cascades. *)
+
+Definition with_fcol (c : Z) (f : frec) : frec :=
+  mkF (f_id f) (f_section f) c (f_display f) (f_visible f) (f_rules f) (f_wopt f).
+Definition with_stable (t : Z) (s : srec) : srec :=
+  mkS (s_id s) t (s_view s) (s_rules s) (s_custom s).
+
+Fixpoint lookup (k : Z) (l : list (Z * Z)) : option Z :=
+  match l with [] => None | (a, b) :: t => if a =? k then Some b else lookup k t end.
+
+(* summaryKey of a table: the sources of its group-by columns *)
+Definition table_key (m : meta) (t : Z) : list Z :=
+  map c_src (filter (fun c => (c_parent c =? t) && negb (c_src c =? 0)) (m_columns m)).
+Definition same_set (a b : list Z) : bool := all_in a b && all_in b a.
+Definition find_summary (m : meta) (src : Z) (gb : list Z) : option trec :=
+  find (fun t => (t_src t =? src) && same_set (table_key m (t_id t)) gb) (m_tables m).
+
+(* _get_or_create_summary, no table with that key yet: doAddTable (summarySourceTable set, raw section, no
+   record card, no manualSort), then summarySourceCol/visibleCol of the group-by columns.  A source column with
+   a display column gets a copy of it (SetDisplayFormula): outside the fragment. *)
+Definition add_summary_table (name src : Z) (gb gbkinds fkinds : list Z) (m : meta) : res (meta * Z) :=
+  if mem name (m_schema m) || mem name (map t_name (m_tables m)) then Unmodelled
+  else if negb (Nat.eqb (length gb) (length gbkinds)) || negb (nodupb gb) then Unmodelled
+  else if existsb (fun c => mem (c_id c) gb && negb (c_display c =? 0)) (m_columns m) then Unmodelled
+  else
+    let t := next_id (tids m) in
+    let c0 := next_id (cids m) in
+    let gcols := map (fun p => match find_column m (snd (fst p)) with
+                               | Some sc => mkC (fst (fst p)) t (snd p) 0 (c_visible sc) (c_id sc) [] (c_reft sc)
+                               | None => mkC (fst (fst p)) t (snd p) 0 0 0 [] 0
+                               end)
+                     (combine (combine (zseq c0 (length gb)) gb) gbkinds) in
+    let fcols := new_columns (c0 + Z.of_nat (length gb)) t fkinds in
+    let m0 := mkM (m_tables m ++ [mkT t name 0 src 0 0]) (m_columns m ++ gcols ++ fcols)
+                  (m_views m) (m_sections m) (m_fields m) (m_tabbar m) (m_pages m) (m_schema m ++ [name]) in
+    let '(m1, sraw) := add_section t 0 false m0 in
+    let m2 := add_fields sraw (visible_cols m1 t) m1 in
+    Ok (set_tables m2 (map (fun r => if t_id r =? t then mkT t name 0 src sraw 0 else r) (m_tables m2)), t).
+
+Definition cols_of_table (m : meta) (cols : list Z) (t : Z) : bool :=
+  forallb (fun c => existsb (fun cr => (c_id cr =? c) && (c_parent cr =? t)) (m_columns m)) cols.
+
+(* CreateViewSection with group-by columns, when no summary table with that key exists *)
+Definition create_summary (src v : Z) (gb : list Z) (name : Z) (gbkinds fkinds : list Z) (m : meta) : res meta :=
+  if (src =? 0) || negb (mem src (tids m)) then (if src =? 0 then Unmodelled else Fail)
+  else if negb (cols_of_table m gb src) then Fail
+  else
+    bind (if v =? 0 then add_view src false m else if mem v (m_views m) then Ok (m, v) else Fail) (fun '(m1, v1) =>
+      match find_summary m1 src gb with
+      | Some _ => Unmodelled
+      | None =>
+        bind (add_summary_table name src gb gbkinds fkinds m1) (fun '(m2, t) =>
+          let '(m3, s) := add_section t v1 false m2 in
+          let shown := map c_id (filter (fun c => (c_parent c =? t) && negb (c_kind c =? K_GROUP)) (m_columns m3)) in
+          Ok (add_fields s shown m3))
+      end).
+
+(* update_summary_section for one section: the target table (0: created, else an existing summary table which
+   may get further formula columns), the fields deleted, the fields moved to columns of the target, the new
+   group-by fields *)
+Record regroup := mkRG { rg_sec : Z; rg_target : Z; rg_name : Z; rg_src : Z; rg_gb : list Z; rg_gbkinds : list Z;
+                         rg_fkinds : list Z; rg_added : list Z; rg_dels : list Z; rg_remap : list (Z * Z);
+                         rg_new : list Z }.
+
+Definition apply_regroup (r : regroup) (m : meta) : res meta :=
+  if negb (mem (rg_sec r) (sids m)) then Fail
+  else
+    bind (if rg_target r =? 0 then add_summary_table (rg_name r) (rg_src r) (rg_gb r) (rg_gbkinds r) (rg_fkinds r) m
+          else if mem (rg_target r) (tids m)
+               then Ok (set_columns m (m_columns m ++ new_columns (next_id (cids m)) (rg_target r) (rg_added r)),
+                        rg_target r)
+               else Fail) (fun '(m1, tgt) =>
+      let m2 := rm_fields (rg_dels r) m1 in
+      let m3 := set_fields m2 (map (fun f => match lookup (f_id f) (rg_remap r) with
+                                             | Some c => with_fcol c f | None => f end) (m_fields m2)) in
+      let m4 := add_fields (rg_sec r) (rg_new r) m3 in
+      Ok (upd_section (rg_sec r) (with_stable tgt) m4)).
+
+Fixpoint apply_regroups (rs : list regroup) (m : meta) : res meta :=
+  match rs with [] => Ok m | r :: t => bind (apply_regroup r m) (apply_regroups t) end.
+
+(* _removeColumnRecords for source columns of group-by columns: doRemoveColumns first regroups every section
+   of the summary tables concerned (UpdateSummaryViewSection on all of tbl.viewSections) *)
+Definition remove_columns_regroup (cols : list Z) (rs : list regroup) (m : meta) : res meta :=
+  if negb (all_in cols (cids m)) then Fail
+  else if negb (nodupb cols) then Unmodelled
+  else if existsb (fun c => mem (c_id c) cols && negb (c_src c =? 0)) (m_columns m) then Fail
+  else bind (apply_regroups rs m) (remove_columns_core cols).
+
+(* ---------------------------------------------------------------------------------------------- *)
 (* DocModel.apply_auto_removes, repeated by Engine.apply_user_actions after the last user action of a bundle
    until nothing is marked: unused helper columns (through _removeColumnRecords), then unused summary tables
    (through _removeTableRecords); both sets are those marked by the same recalculation *)
@@ -587,7 +679,10 @@ Inductive op :=
 | OSetRules (owner i : Z) (r : list Z)                   (* UpdateRecord ... {rules: shorter list} *)
 | OSetCustom (s : Z) (b : bool)                          (* UpdateRecord _grist_Views_section {options/theme/layoutSpec} *)
 | ORenameTable (t name : Z)                              (* RenameTable *)
-| ONoMeta                                                (* an action that touches none of the modelled cells *)
+| OCreateSummary (src v : Z) (gb : list Z) (name : Z) (gbkinds fkinds : list Z)  (* CreateViewSection, group-by *)
+| ORegroup (r : regroup)                                 (* UpdateSummaryViewSection *)
+| ORemoveColumnsG (cols : list Z) (rs : list regroup)    (* RemoveColumn of group-by source columns *)
+| ONoMeta                                               (* an action that touches none of the modelled cells *)
 | OUnmodelled.                                           (* any other action *)
 
 Definition step (o : op) (m : meta) : res meta :=
@@ -610,6 +705,9 @@ Definition step (o : op) (m : meta) : res meta :=
   | OSetRules owner i r => set_rules owner i r m
   | OSetCustom s b => set_custom s b m
   | ORenameTable t name => rename_table t name m
+  | OCreateSummary src v gb name gbkinds fkinds => create_summary src v gb name gbkinds fkinds m
+  | ORegroup r => apply_regroup r m
+  | ORemoveColumnsG cols rs => remove_columns_regroup cols rs m
   | ONoMeta => Ok m
   | OUnmodelled => Unmodelled
   end.
